@@ -199,6 +199,8 @@ def play(ctx, rng, fam, seq, peer, box, label):
 
 
 def run(ctx):
+    import socket
+    socket.setdefaulttimeout(30)   # a hung exchange must surface as an exception, not as a dead shard
     rng = ctx.rng
     plans = [("tcp", ctx.pick(3, 4)), ("unix", ctx.pick(2, 3))]
     for fam, maxlen in plans:
